@@ -15,27 +15,34 @@
 (* restarted or shut down.  A responder is CREATED, later RUNNING; shutting down a       *)
 (* created one closes its socket, so that it ends as soon as it runs.  Answers are      *)
 (* judged when no created thread is pending (Probe).                                    *)
+(* Restart and shutdown TEAR DOWN step by step: the responder is stopped, the           *)
+(* interfaces are closed one at a time (each close blocks until the port is free), and  *)
+(* a request may arrive between any two steps: an answer must name only ports that are  *)
+(* open at that moment.                                                                 *)
 EXTENDS Integers, Sequences, FiniteSets, TLC
 
 CONSTANTS MaxIf,        \* maximal number of configured interfaces
           MaxGen,       \* maximal number of (re)starts
           RestartRule,  \* DESIGN parameter: "stop_old" (as repaired) | "leak"
           PortRule,     \* DESIGN parameter: "opened" (as implemented) | "configured" | "sticky"
-          ShutdownRule  \* DESIGN parameter: "close_always" (as implemented) | "guarded" (no-op unless running)
+          ShutdownRule, \* DESIGN parameter: "close_always" (as implemented) | "guarded" (no-op unless running)
+          TeardownOrder \* DESIGN parameter: "responder_first" (as implemented) | "interfaces_first" | "any"
+                        \* (trace validation: the order itself is not observable, only the answers are judged)
 
 Schemes == {"tcp", "ws"}
 
 VARIABLES cfg,      \* sequence of interface schemes
           up,       \* indices of the interfaces that are open now
           ever,     \* indices that were open in some generation (only used by the "sticky" design)
-          phase,    \* "down" | "up" | "stopped"
+          phase,    \* "down" | "up" | "closing" (tearing down for a restart or a shutdown) | "stopped"
+          rstopped, \* closing: UDPListener.shutdown of the current responder has been called
           gen,      \* number of (re)starts so far
           created,  \* generations whose responder exists but whose thread has not executed anything yet
           closed,   \* generations whose socket was closed
           live,     \* generations whose responder thread runs (serves requests)
           given,    \* generation -> port indices handed to its responder
           last      \* observable outcome of the last operation (incl. a probe request)
-wvars == <<cfg, up, ever, phase, gen, created, closed, live, given, last>>
+wvars == <<cfg, up, ever, phase, rstopped, gen, created, closed, live, given, last>>
 
 Tcp(c) == {i \in 1 .. Len(c) : c[i] = "tcp"}
 (* the ports a responder started now is given *)
@@ -46,13 +53,13 @@ Ports(c, u, ev) == CASE PortRule = "opened" -> Tcp(c) \cap u
 Serving(u, ev) == IF PortRule = "sticky" THEN (ev \cup u) # {} ELSE u # {}
 
 (* what the property allows as answers to a probe request *)
-Demanded(c, u, ph, g) == IF ph = "up" THEN {<<g, i>> : i \in Tcp(c) \cap u} ELSE {}
+Demanded(c, u, ph, g) == IF ph \in {"up", "closing"} THEN {<<g, i>> : i \in Tcp(c) \cap u} ELSE {}
 (* what the design produces: every running responder answers for the ports it was given *)
 Answers(lv, gv) == UNION {{<<g, i>> : i \in gv[g]} : g \in lv}
 
 Seqs(n) == UNION {[1 .. k -> Schemes] : k \in 1 .. n}
 WInit == /\ cfg \in Seqs(MaxIf) /\ up = {} /\ ever = {} /\ phase = "down" /\ gen = 0 /\ live = {}
-         /\ created = {} /\ closed = {}
+         /\ created = {} /\ closed = {} /\ rstopped = FALSE
          /\ given = <<>> /\ last = [kind |-> "none"]
 
 (* UDPListener.shutdown of generation g *)
@@ -61,43 +68,63 @@ Stopped(g) == IF RestartRule = "stop_old" /\ g > 0 /\ CanClose(g) THEN {g} ELSE 
 
 (* (re)start with the interfaces u coming up; held: the new responder thread does not run yet *)
 Come(kind, u, held) ==
-    /\ up' = u /\ ever' = ever \cup u
-    /\ closed' = closed \cup Stopped(gen)
+    /\ up' = u /\ ever' = ever \cup u /\ rstopped' = FALSE
     /\ IF Serving(u, ever)
        THEN /\ phase' = "up" /\ gen' = gen + 1
             /\ created' = IF held THEN created \cup {gen + 1} ELSE created
-            /\ live' = (live \ Stopped(gen)) \cup (IF held THEN {} ELSE {gen + 1})
+            /\ live' = live \cup (IF held THEN {} ELSE {gen + 1})
             /\ given' = Append(given, Ports(cfg, u, ever))
        ELSE /\ phase' = "stopped" /\ gen' = gen                    \* "no interface started": run() returns
-            /\ created' = created /\ live' = live \ Stopped(gen)
+            /\ created' = created /\ live' = live
             /\ given' = given
     /\ last' = [kind |-> kind]
-    /\ UNCHANGED cfg
+    /\ UNCHANGED <<cfg, closed>>
 
 Boot == phase = "down" /\ \E u \in SUBSET (1 .. Len(cfg)), h \in BOOLEAN : Come("boot", u, h)
-Restart == phase = "up" /\ gen < MaxGen /\ \E u \in SUBSET (1 .. Len(cfg)), h \in BOOLEAN : Come("restart", u, h)
 
-Shutdown == /\ phase = "up"
-            /\ phase' = "stopped" /\ up' = {}
-            /\ closed' = closed \cup Stopped(gen)
-            /\ live' = live \ Stopped(gen)
+(* ---- tearing down (first step of Server.restart / Server.shutdown onwards) ---- *)
+StopResponder ==
+    /\ phase \in {"up", "closing"} /\ ~ rstopped
+    /\ TeardownOrder \in {"responder_first", "any"} \/ up = {}
+    /\ phase' = "closing" /\ rstopped' = TRUE
+    /\ closed' = closed \cup Stopped(gen) /\ live' = live \ Stopped(gen)
+    /\ last' = [kind |-> "stop_responder"]
+    /\ UNCHANGED <<cfg, up, ever, gen, created, given>>
+
+CloseInterface(i) ==
+    /\ phase \in {"up", "closing"} /\ i \in up
+    /\ TeardownOrder \in {"interfaces_first", "any"} \/ rstopped
+    /\ phase' = "closing" /\ up' = up \ {i}
+    /\ last' = [kind |-> "close_iface"]
+    /\ UNCHANGED <<cfg, ever, rstopped, gen, created, closed, live, given>>
+
+TornDown == phase = "closing" /\ up = {} /\ rstopped
+Restart == TornDown /\ gen < MaxGen /\ \E u \in SUBSET (1 .. Len(cfg)), h \in BOOLEAN : Come("restart", u, h)
+
+Shutdown == /\ TornDown
+            /\ phase' = "stopped"
             /\ last' = [kind |-> "shutdown"]
-            /\ UNCHANGED <<cfg, ever, gen, created, given>>
+            /\ UNCHANGED <<cfg, up, ever, rstopped, gen, created, closed, live, given>>
 
 (* the pending responder threads get the processor: one whose socket is closed ends at once *)
 RunAll == /\ created # {}
           /\ created' = {} /\ live' = live \cup (created \ closed)
           /\ last' = [kind |-> "run"]
-          /\ UNCHANGED <<cfg, up, ever, phase, gen, closed, given>>
+          /\ UNCHANGED <<cfg, up, ever, phase, rstopped, gen, closed, given>>
 
 (* a broadcast request, once every thread has had its turn *)
 Probe == /\ created = {} /\ last.kind \notin {"probe", "none"}
          /\ last' = [kind |-> "probe", answers |-> Answers(live, given)]
-         /\ UNCHANGED <<cfg, up, ever, phase, gen, created, closed, live, given>>
+         /\ UNCHANGED <<cfg, up, ever, phase, rstopped, gen, created, closed, live, given>>
 
-WNext == Boot \/ Restart \/ Shutdown \/ RunAll \/ Probe
+WNext == Boot \/ StopResponder \/ (\E i \in 1 .. Len(cfg) : CloseInterface(i)) \/ Restart \/ Shutdown \/ RunAll \/ Probe
 WSpec == WInit /\ [][WNext]_wvars
 
-OneResponder == created = {} => (IF phase = "up" THEN live = {gen} ELSE live = {})
-AnswersTrue == last.kind = "probe" => last.answers = Demanded(cfg, up, phase, gen)
+OneResponder == created = {} => CASE phase = "up" -> live = {gen}
+                                   [] phase = "closing" -> live \subseteq {gen}
+                                   [] OTHER -> live = {}
+(* while tearing down the responder may already be silent, but it never names a closed port *)
+AnswersTrue == last.kind = "probe" =>
+    IF phase = "closing" THEN last.answers \subseteq Demanded(cfg, up, phase, gen)
+    ELSE last.answers = Demanded(cfg, up, phase, gen)
 =============================================================================
